@@ -91,7 +91,7 @@ class _Plain:
     __hash__ = None  # type: ignore[assignment]
 
     def __repr__(self):
-        return f"{type(self).__name__}({self.__dict__!r})"
+        return f"{type(self).__name__}({_all_attrs(self)!r})"
 
 
 class PlainA(_Plain):
@@ -102,7 +102,24 @@ class PlainB(_Plain):
     pass
 
 
-CLASSES = {"PlainA": PlainA, "PlainB": PlainB}
+class _SlotBase:
+    __slots__ = ("z",)
+
+
+class SlotMix(_SlotBase, _Plain):
+    """Instance state partly outside the instance dict: attribute 'z' lives in a slot inherited from the base."""
+
+
+def _all_attrs(o) -> dict:
+    d = dict(o.__dict__)
+    for klass in type(o).__mro__:
+        for n in getattr(klass, "__slots__", ()):
+            if hasattr(o, n):
+                d[n] = getattr(o, n)
+    return d
+
+
+CLASSES = {"PlainA": PlainA, "PlainB": PlainB, "SlotMix": SlotMix}
 FACTORIES = {"none": None, "int": int, "list": list, "dict": dict, "set": set}
 
 
@@ -212,7 +229,7 @@ def build(r):
 
 
 def _canon_attrs(o, strict):
-    return frozenset((n, canon(v, strict)) for n, v in o.__dict__.items())
+    return frozenset((n, canon(v, strict)) for n, v in _all_attrs(o).items())
 
 
 def canon(v, strict: bool):
@@ -344,7 +361,7 @@ def features(v, acc=None) -> set:
             acc.add("unorderable:DataFrame-columns")
     elif isinstance(v, _Plain):
         acc.add("plain-object")
-        for x in v.__dict__.values():
+        for x in _all_attrs(v).values():
             features(x, acc)
     return acc
 
@@ -1202,8 +1219,8 @@ def _diff_pairs(v1, v2, acc: list) -> list:
             pairs = [(v1[k], v2[k]) for k in v1]
         elif t in (dict, collections.defaultdict) and set(v1) == set(v2):  # aligned by key, whatever the insertion order
             pairs = [(v1[k], v2[k]) for k in v1]
-        elif isinstance(v1, _Plain) and set(v1.__dict__) == set(v2.__dict__):
-            pairs = [(v1.__dict__[k], v2.__dict__[k]) for k in v1.__dict__]
+        elif isinstance(v1, _Plain) and set(_all_attrs(v1)) == set(_all_attrs(v2)):
+            pairs = [(_all_attrs(v1)[k], _all_attrs(v2)[k]) for k in _all_attrs(v1)]
     if pairs is None:
         acc.append((v1, v2))
         return acc
